@@ -56,15 +56,7 @@ pub fn wrap_front(front: &str, prose: &str, rng: &mut Rng) -> String {
     let fill = *rng.pick(MULTIBYTE_FILL);
     match front {
         "plain" => prose.to_string(),
-        "markdown" | "markdown-nolinktitle" => match rng.below(7) {
-            0 => format!("# {fill}\n\n{prose}\n"),
-            1 => format!("- {prose}\n- {fill}\n"),
-            2 => format!("> {prose}\n"),
-            3 => format!("`{fill}` {prose} [{fill}](http://example.com \"{prose}\")\n"),
-            4 => format!("| a | b |\n|---|---|\n| {prose} | {fill} |\n"),
-            5 => format!("```\n{fill}\n```\n\n{prose}"),
-            _ => prose.to_string(),
-        },
+        "markdown" | "markdown-nolinktitle" => markdown_doc(prose, rng),
         "html" => match rng.below(3) {
             0 => format!("<p>{prose}</p>"),
             1 => format!("<html><body><h1>{fill}</h1><p>{prose}</p></body></html>"),
@@ -93,6 +85,52 @@ pub fn wrap_front(front: &str, prose: &str, rng: &mut Rng) -> String {
             }
         }
     }
+}
+
+/// A Markdown document: a random sequence of block and inline constructs, each carrying
+/// multi-byte characters in the places that are NOT prose (markup, code, raw HTML, URLs).
+pub fn markdown_doc(prose: &str, rng: &mut Rng) -> String {
+    let mut out = String::new();
+    let nblocks = rng.range(1, 4);
+    let prose_at = rng.below(nblocks);
+    for b in 0..nblocks {
+        let fill = *rng.pick(MULTIBYTE_FILL);
+        let fill2 = *rng.pick(MULTIBYTE_FILL);
+        let body: String = if b == prose_at { prose.to_string() } else { format!("Plain words {fill} here.") };
+        let inline = match rng.below(12) {
+            0 => format!("{body} <kbd title=\"{fill}\">Enter</kbd> after."),
+            1 => format!("{body} <!-- {fill} --> after."),
+            2 => format!("`{fill}` {body}"),
+            3 => format!("{body} [{fill2}](http://example.com/{fill} \"{fill2} title\")"),
+            4 => format!("![{fill}](img.png) {body}"),
+            5 => format!("*{fill}* **{body}** ~~{fill2}~~"),
+            6 => format!("{body} <{fill}@example.com> <http://example.com/{fill}>"),
+            7 => format!("{body} &amp; &#233; {fill}  \nhard break {fill2}"),
+            8 => format!("{body}[^1]\n\n[^1]: {fill} note."),
+            9 => format!("{fill} <span>{fill2}</span> {body}"),
+            _ => body,
+        };
+        let block = match rng.below(12) {
+            0 => format!("# {fill} {inline}"),
+            1 => format!("- {inline}\n- {fill}\n  - nested {fill2}"),
+            2 => format!("> {inline}\n> {fill}"),
+            3 => format!("| {fill} | b |\n|---|---|\n| {inline} | {fill2} |"),
+            4 => format!("```{fill}\n{fill2}\n```\n\n{inline}"),
+            5 => format!("<div class=\"{fill}\">\n{fill2}\n</div>\n\n{inline}"),
+            6 => format!("1. {inline}\n2. {fill}"),
+            7 => format!("- [ ] {inline}\n- [x] {fill}"),
+            8 => format!("{fill}\n===\n\n{inline}"),
+            9 => format!("    indented {fill}\n\n{inline}"),
+            10 => format!("<!-- {fill}\n{fill2} -->\n\n{inline}"),
+            _ => inline,
+        };
+        out.push_str(&block);
+        out.push_str(if rng.chance(1, 6) { "\n" } else { "\n\n" });
+    }
+    if rng.chance(1, 3) {
+        out.truncate(out.trim_end().len());
+    }
+    out
 }
 
 pub fn adversarial() -> Vec<String> {
